@@ -570,6 +570,7 @@ func runC14(c *Ctx) {
 			c.Undecided("DecodeRLP-methods", token.NoPos, "no DecodeRLP method found")
 		}
 	}
+	c14IndexGate(c, c.W)
 }
 
 func c14E7(c *Ctx, w *World) {
@@ -1344,4 +1345,74 @@ func canonEvidence(atoms []Atom, fromSrc func(ssa.Value) bool, depth int) bool {
 		}
 	}
 	return false
+}
+
+// c14IndexGate (E12): an index decoded from a message reaches the validator list only through a bounds test.
+func c14IndexGate(c *Ctx, w *World) {
+	c.Rule("C14.E12", "GATE", "hostile bytes are rejected, not crashed on: Validators.GetByIndex is the only guard between an index decoded from the wire (SingleVote.VoterIdx in votes and header vote containers, EvidenceDoubleSignV5.SignerIdx in Header.SlashData) and the look-back validator slice — every element access with the caller's index is reached only on paths that established 0 <= index and index < len(list) (len of that slice, or a Len() method returning it). With `index > Len()` a container naming index == number of validators panics every node that decodes it")
+	c.Min(1)
+	fn := w.Fn(statePkg, "Validators", "GetByIndex")
+	c.sawFunc(fname(fn))
+	isLenOf := func(v ssa.Value) bool {
+		v = stripConvNoBind(v)
+		cc, ok := v.(*ssa.Call)
+		if !ok {
+			return false
+		}
+		if b, isB := cc.Call.Value.(*ssa.Builtin); isB && b.Name() == "len" {
+			return true
+		}
+		if g := cc.Call.StaticCallee(); g != nil && g.Name() == "Len" && len(g.Blocks) == 1 {
+			// Len() { return len(field) }
+			if ret, isRet := g.Blocks[0].Instrs[len(g.Blocks[0].Instrs)-1].(*ssa.Return); isRet && len(ret.Results) == 1 {
+				if lc, isC := ret.Results[0].(*ssa.Call); isC {
+					if b, isB := lc.Call.Value.(*ssa.Builtin); isB && b.Name() == "len" {
+						return true
+					}
+				}
+			}
+		}
+		return false
+	}
+	n := 0
+	for _, in := range allInstrs(fn) {
+		ia, ok := in.(*ssa.IndexAddr)
+		if !ok {
+			continue
+		}
+		idx := stripConvNoBind(ia.Index)
+		if _, isP := idx.(*ssa.Parameter); !isP {
+			continue
+		}
+		n++
+		c.sites++
+		upper, lower := false, false
+		for _, a := range atomsOf(factsAt(ia.Block())) {
+			if a.Kind != "cmp" {
+				continue
+			}
+			x, y := stripConvNoBind(a.X), stripConvNoBind(a.Y)
+			op := a.Op
+			if !a.Truth {
+				op = map[token.Token]token.Token{token.LSS: token.GEQ, token.GEQ: token.LSS, token.GTR: token.LEQ, token.LEQ: token.GTR}[op]
+			}
+			if x == idx && isLenOf(y) && op == token.LSS {
+				upper = true
+			}
+			if y == idx && isLenOf(x) && op == token.GTR {
+				upper = true
+			}
+			if k, isK := constInt(y); isK && x == idx && ((op == token.GEQ && k == 0) || (op == token.GTR && k == -1)) {
+				lower = true
+			}
+			if k, isK := constInt(x); isK && y == idx && ((op == token.LEQ && k == 0) || (op == token.LSS && k == -1)) {
+				lower = true
+			}
+		}
+		ok2 := upper && lower
+		c.Check(fmt.Sprintf("%s#element-access-%d-within-bounds", fname(fn), n), ia.Pos(), ok2, ifelse(ok2, "the access is reached only with 0 <= index < len", fmt.Sprintf("the element access is reachable without both bounds established (index >= 0: %v, index < len: %v): an index equal to the number of validators, decoded from a vote container or an evidence, panics instead of being rejected", lower, upper)))
+	}
+	if n == 0 {
+		c.Undecided(fname(fn)+"#element-access", fn.Pos(), "no element access with the caller's index found in GetByIndex")
+	}
 }
